@@ -925,7 +925,7 @@ func (node *Node) matchForks(fork ForkId) []*Fork {
 			// skipping at least one, so it won't ever need to grow, and being
 			// smaller than the length of upstream means the capacity will no
 			// longer match either.
-			result = make([]*Fork, i-1, len(forks)-1)
+			result = make([]*Fork, i, len(forks)-1)
 			copy(result, forks[:i])
 		}
 	}
